@@ -10,6 +10,8 @@
 (*   permv      the variables are renumbered                               *)
 (*   dup        one constraint is posted twice                             *)
 (*   true       an always-true constraint is added                         *)
+(*   incr       the same model built incrementally (add_variable(s), explicit  *)
+(*              indices / offsets for shared domains, add_propagator(s))      *)
 (*   shift      all values are translated by delta (translation-invariant  *)
 (*              constraints only; parameters that are values move along)   *)
 (*                                                                         *)
@@ -78,6 +80,7 @@ Apply(r) ==
     [] r.kind = "dup"     -> Duplicate(r.P, r.q)
     [] r.kind = "true"    -> AddTrue(r.P, r.q, r.v)
     [] r.kind = "shift"   -> Shift(r.P, r.delta)
+    [] r.kind = "incr"    -> r.P        \* the same model, written through add_variable(s) / add_propagator(s) by the harness
 
 \* a solution vector of the rewritten model, read back as a solution vector of the original one
 Back(r, y) ==
